@@ -300,10 +300,11 @@ func c07PutDiscipline(p *load.Program, r *oblig.Report, rule string) {
 			// (b) guarded by currBatch == arg
 			for d, child := call.Block().Idom(), call.Block(); d != nil && !isCurr; d, child = d.Idom(), d {
 				_, ci := an.IfCond(d)
-				if ci == nil || ci.Op != token.EQL {
+				e := ci.Edge(token.EQL)
+				if e < 0 {
 					continue
 				}
-				if (d.Succs[0] == child || d.Succs[0].Dominates(child)) && ((isLoadOfField(ci.X, "partitionWriter", "currBatch") && ci.Y == arg) || (isLoadOfField(ci.Y, "partitionWriter", "currBatch") && ci.X == arg)) {
+				if (d.Succs[e] == child || d.Succs[e].Dominates(child)) && ((isLoadOfField(ci.X, "partitionWriter", "currBatch") && ci.Y == arg) || (isLoadOfField(ci.Y, "partitionWriter", "currBatch") && ci.X == arg)) {
 					isCurr = true
 					why = "guarded by ptw.currBatch == batch"
 				}
@@ -1239,7 +1240,12 @@ func c01RetryLoop(p *load.Program, r *oblig.Report) {
 				maxObj = obj(as.Lhs[k])
 			}
 		}
-		if be, ok := loop.Cond.(*ast.BinaryExpr); ok && be.Op == token.LSS && obj(be.X) == ctr && ctr != nil {
+		be, _ := ast.Unparen(loop.Cond).(*ast.BinaryExpr)
+		if be != nil && be.Op == token.GTR {
+			// `max > attempt` is the same bound as `attempt < max`
+			be = &ast.BinaryExpr{X: be.Y, Op: token.LSS, Y: be.X}
+		}
+		if be != nil && be.Op == token.LSS && obj(be.X) == ctr && ctr != nil {
 			bound := obj(be.Y) == maxObj && maxObj != nil
 			if !bound && calleeName(be.Y) == "maxAttempts" {
 				bound = true
@@ -1630,9 +1636,9 @@ func c01ProduceResponse(p *load.Program, r *oblig.Report) {
 	okNone := false
 	for _, b := range an.Blocks(fn) {
 		_, ci := an.IfCond(b)
-		if ci != nil && ci.Op == token.EQL && strings.HasSuffix(argDesc(ci.X), ".RequiredAcks") {
+		if e := ci.Edge(token.EQL); e >= 0 && strings.HasSuffix(argDesc(ci.X), ".RequiredAcks") {
 			if k, ok := an.ConstInt(ci.Y); ok && k == 0 {
-				if ret, ok := b.Succs[0].Instrs[len(b.Succs[0].Instrs)-1].(*ssa.Return); ok && an.IsNilConst(an.RetVal(ret, 0)) && an.IsNilConst(an.RetVal(ret, 1)) {
+				if ret, ok := b.Succs[e].Instrs[len(b.Succs[e].Instrs)-1].(*ssa.Return); ok && an.IsNilConst(an.RetVal(ret, 0)) && an.IsNilConst(an.RetVal(ret, 1)) {
 					okNone = true
 				}
 			}
